@@ -222,4 +222,10 @@ MUTANTS += [
     dict(id="c12_conditioner_parameterises_frozen", prop="C12", file="flowjax/utils.py",
          old="        is_leaf=lambda leaf: isinstance(leaf, flowjax.wrappers.NonTrainable),\n",
          new=""),
+    dict(id="c09_conditional_hidden_ranks_start_at_zero", prop="C09", file=MA,
+         old="            hidden_ranks = (jnp.arange(nn_width) % dim) - 1\n",
+         new="            hidden_ranks = jnp.arange(nn_width) % dim\n"),
+    dict(id="c09_coupling_conditioner_ignores_condition", prop="C09", file=CO,
+         old="    def transform(self, x, condition=None):\n        x_cond, x_trans = x[: self.untransformed_dim], x[self.untransformed_dim :]\n        nn_input = x_cond if condition is None else jnp.hstack((x_cond, condition))\n",
+         new="    def transform(self, x, condition=None):\n        x_cond, x_trans = x[: self.untransformed_dim], x[self.untransformed_dim :]\n        nn_input = x_cond if condition is None else jnp.hstack((x_cond, 0 * condition))\n"),
 ]
